@@ -16,17 +16,25 @@ use tokio::{
 pub struct Proxy {
     pub addr: SocketAddr,
     blocked: Arc<AtomicBool>,
+    frozen: Arc<AtomicBool>,
     links: Arc<Mutex<Vec<JoinHandle<()>>>>,
     pub accepted: Arc<AtomicU64>,
     acceptor: JoinHandle<()>,
 }
 
-async fn pipe(mut a: TcpStream, mut b: TcpStream) {
+async fn thaw(frozen: &AtomicBool) {
+    while frozen.load(Ordering::SeqCst) {
+        tokio::time::sleep(std::time::Duration::from_millis(4)).await;
+    }
+}
+
+async fn pipe(mut a: TcpStream, mut b: TcpStream, frozen: Arc<AtomicBool>) {
     let (mut ar, mut aw) = a.split();
     let (mut br, mut bw) = b.split();
     let f1 = async {
         let mut buf = vec![0u8; 16384];
         loop {
+            thaw(&frozen).await;
             match ar.read(&mut buf).await {
                 Ok(0) | Err(_) => break,
                 Ok(n) => {
@@ -40,6 +48,7 @@ async fn pipe(mut a: TcpStream, mut b: TcpStream) {
     let f2 = async {
         let mut buf = vec![0u8; 16384];
         loop {
+            thaw(&frozen).await;
             match br.read(&mut buf).await {
                 Ok(0) | Err(_) => break,
                 Ok(n) => {
@@ -59,6 +68,8 @@ impl Proxy {
         let listener = TcpListener::bind("127.0.0.1:0").await.expect("proxy bind");
         let addr = listener.local_addr().unwrap();
         let blocked = Arc::new(AtomicBool::new(false));
+        let frozen = Arc::new(AtomicBool::new(false));
+        let f2 = frozen.clone();
         let links: Arc<Mutex<Vec<JoinHandle<()>>>> = Arc::new(Mutex::new(Vec::new()));
         let accepted = Arc::new(AtomicU64::new(0));
         let (b2, l2, a2) = (blocked.clone(), links.clone(), accepted.clone());
@@ -76,13 +87,13 @@ impl Proxy {
                 };
                 let _ = out.set_nodelay(true);
                 a2.fetch_add(1, Ordering::SeqCst);
-                let h = tokio::spawn(pipe(sock, out));
+                let h = tokio::spawn(pipe(sock, out, f2.clone()));
                 let mut g = l2.lock().unwrap();
                 g.retain(|h| !h.is_finished());
                 g.push(h);
             }
         });
-        Proxy { addr, blocked, links, accepted, acceptor }
+        Proxy { addr, blocked, frozen, links, accepted, acceptor }
     }
 
     /// Drop every forwarded connection now.
@@ -93,6 +104,11 @@ impl Proxy {
             h.abort();
         }
         n
+    }
+
+    /// Stop / resume forwarding without closing anything (transport-level backpressure).
+    pub fn freeze(&self, on: bool) {
+        self.frozen.store(on, Ordering::SeqCst);
     }
 
     pub fn block(&self, on: bool) {
